@@ -35,6 +35,8 @@ def run(chk):
              "the clockwise cycle Left->Top->Right->Bottom on the whole four-element domain (61 cells)")
     chk.rule("T.next-location", "GetNextLocation: leaving the region of a side, the next vertex is filed under the opposite side first, else an adjacent "
              "side, else Inside (four cases x all positions against the rectangle)")
+    chk.rule("CROSSING.latched", "RectClip64's scan: a segment that does not cross the rectangle, met before the first crossing, leaves the crossing marker at Inside "
+             "(no-crossing branch executed for the 24 region pairs x rotation senses)")
     chk.rule("CORNER.chain", "closing a path that ends outside: the corner steps RectClip64::ExecuteInternal adds are those of one walk from the end region through "
              "start_locs_ to the first-crossing region (closing block executed for 1360 cases)")
     chk.rule("START.location", "the location RectClip64::ExecuteInternal starts its scan with is the truth about the path's last vertex (its region; on the boundary: "
@@ -57,6 +59,7 @@ def run(chk):
         e3.scan_start_rule(db, chk, cfg, "RectClip64::ExecuteInternal", 0)
         e3.start_location_rule(db, chk, cfg)
         e3.corner_chain_rule(db, chk, cfg)
+        e3.crossing_latched_rule(db, chk, cfg)
         eng = e2.E2(db, chk, cfg, ["RectClip64", "RectClipLines64"])
         e2.check_classification(eng, RECT, chk, "RectClip64")
         f = db.one("RectClip64::Execute")
